@@ -50,6 +50,20 @@ def run(ctx):
             h.viols.append(('duplicate-abbr|%s|%s' % (t, '+'.join(sorted([n, seen_abbr[k]]))), {'abbreviation': r['abbr']}))
         seen_abbr[k] = n
         if r['kind'] == 0:
+            # the enumerator converts to and from the standard unit by the magnitude its own abbreviation denotes (coarse 1e-6
+            # bound here: totality and the right table row in both directions; the ulp-level statement is C01's)
+            u = bykey.get((t, r['number']))
+            if u and u['readings']:
+                for tn in ('f', 'd', 'ld'):
+                    one = uo.parse_hexfloat(r[tn]['one']) - uo.parse_hexfloat(r[tn]['zero'])
+                    back = uo.parse_hexfloat(r[tn]['back_one']) - uo.parse_hexfloat(r[tn]['back_zero'])
+                    ev += 2
+                    ok_to = any(abs(one / q.value() - 1) < F(1, 10 ** 5) for q in u['readings'])
+                    ok_from = any(abs(back * q.value() - 1) < F(1, 10 ** 5) for q in u['readings']) if back != 0 else False
+                    if not ok_to or not ok_from:
+                        h.viols.append(('convert-magnitude|%s|%s|%s|%s' % (t, n, tn, 'to-standard' if not ok_to else 'from-standard'),
+                                        {'unit': n, 'abbreviation': r['abbr'], 'numeric_type': tn, 'one_unit_in_standard_units': float(one),
+                                         'one_standard_unit_in_units': float(back), 'magnitude_denoted_by_abbreviation': float(u['readings'][0].value())}))
             for tn in ('f', 'd', 'ld'):
                 ev += 2
                 for fld in ('one', 'back_one'):
